@@ -1,27 +1,10 @@
-import RV.C01.LemSimple
+import RV.C01.LemStore
 /-
   C01 helper lemmas, part G: every operation of a history keeps the invariant; an open
   `triples()` generator interleaved with mutations.
 -/
 namespace RV.C01
 open RV
-
-theorem step_inv {m : Mem} (hI : Inv m) (op : Op) : Inv (m.step op) := by
-  cases op with
-  | add t g => exact (add_spec hI t g).1
-  | addN g qs => exact (addN_spec g qs m hI).1
-  | remove pat g => exact (remove_spec hI pat g).1
-  | set t g => exact (set_spec hI t g).1
-  | iadd g ts => exact (iadd_spec hI g ts).1
-  | iaddG g h => exact (iadd_spec hI g _).1
-  | isub g ts => exact (isub_spec g ts m hI).1
-  | isubG g h => exact (isub_spec g _ m hI).1
-
-theorem run_inv : ∀ (ops : List Op) (m : Mem), Inv m → Inv (m.run ops) := by
-  intro ops
-  induction ops with
-  | nil => intro m h; exact h
-  | cons op r ih => intro m h; exact ih _ (step_inv h op)
 
 @[simp] theorem load_pat (it : Iter) (m : Mem) (ts : List Triple) : (it.load m ts).pat = it.pat := by
   unfold Iter.load; split <;> rfl
@@ -113,7 +96,7 @@ theorem yields_sound (pat : Pat) (g : Nat) : ∀ (evs : List Ev) (hist : List Me
     cases e with
     | mutate op =>
       simp only [yields] at hy
-      exact ih _ _ it (step_inv hI op) (by simp) hp hg (pendingOk_mono _ hok) y hy
+      exact ih _ _ it (stStep_inv hI op) (by simp) hp hg (pendingOk_mono _ hok) y hy
     | load ts =>
       simp only [yields] at hy
       exact ih hist m _ hI hm (by simp [hp]) (by simp [hg]) (pendingOk_load hI ts hok) y hy
@@ -164,7 +147,7 @@ theorem sched_no_raise : ∀ (evs : List Ev) (m : Mem) (it : Iter), Inv m → sc
     cases e with
     | mutate op =>
       simp only [schedRaises, Bool.or_eq_false_iff]
-      exact ⟨(step_inv hI op).err, ih _ it (step_inv hI op)⟩
+      exact ⟨(stStep_inv hI op).err, ih _ it (stStep_inv hI op)⟩
     | load ts => exact ih m _ hI
     | next =>
       simp only [schedRaises, Bool.or_eq_false_iff]
